@@ -167,4 +167,17 @@ CLAIMED["C20"] = {
     "note": _IX_NOTE,
 }
 
+CLAIMED["C18"] = {
+    "technique": "static analysis: presentation taint (parameters printitn / printinneritn / verbosity / _printitn and locals derived "
+                 "only from them), control-dependence regions, order-aware def-use reachability into branch conditions, backward "
+                 "slice of the returned model, effect summaries of callees from the alias engine, RNG who-may-call",
+    "level": "Decides for all 32 printing regions of the seven algorithms that code control-dependent on a presentation setting "
+             "neither defines a value that can reach a later branch/loop condition, nor rebinds or writes (other than by a Kruskal "
+             "re-parameterisation) anything in the slice of the returned model, nor draws random numbers, nor transfers control; and "
+             "that every random draw in pyttb uses the global numpy stream. Dense-vs-sparse agreement, scaling and relabelling "
+             "equivariance are relations between runs and are not decided.",
+    "note": "Trusted: print/logging/formatting are effect-free; normalize/arrange/redistribute/fixsigns only re-parameterise (C08). "
+            "A positive fixture must fire on every run.",
+}
+
 NOT_APPLICABLE = {}
